@@ -160,6 +160,12 @@ func doCall(obj *object, ctxPlain, ctxH context.Context, sp spec, specIdx, run i
 	if sp.Opt&optCtxHandlers != 0 {
 		base = ctxH
 	}
+	if obj.cancelKey != "" && (sp.Opt&optCancel != 0 || (obj.wantsCancel != nil && obj.wantsCancel(sp))) {
+		var cancel context.CancelFunc
+		base, cancel = context.WithCancel(base)
+		defer cancel()
+		rc.cancelKey, rc.cancelFn = obj.cancelKey, cancel
+	}
 	ctx := withRec(base, rc)
 	out := &callOut{rc: rc}
 	out.t0 = int64(sinceBase())
